@@ -396,13 +396,14 @@ Definition okey_eqb (a b : option fval) : bool :=
 Definition uniq_nokey (left : fval) : res fval :=
   Ok (FList (uniq_by py_eq [] (sequence_arg left))).
 
-(** [obj[key]]: KeyError -> MISSING, TypeError -> LiquidTypeError, IndexError escapes. *)
+(** [obj[key]]: KeyError or IndexError -> MISSING (uniq_filter.py:87, after the fix
+    "uniq with an index key raised IndexError"), TypeError -> LiquidTypeError. *)
 Definition uniq_item_key (key obj : fval) : res (option fval) :=
   do g <- getitem_raw obj key;;
   match g with
   | GVal v => Ok (Some v)
   | GKeyErr => Ok None
-  | GIndexErr => PyExc IndexError
+  | GIndexErr => Ok None
   | GTypeErr _ => LErr LiquidTypeError None
   end.
 
@@ -422,13 +423,14 @@ Definition is_nil (v : fval) : bool := match v with FNil => true | _ => false en
 Definition compact_nokey (left : fval) : res fval :=
   Ok (FList (filter (fun i => negb (is_nil i)) (sequence_arg left))).
 
-(** [_property(itm, key) is not None] *)
+(** [_property(itm, key) is not None]; a missing key or an index out of range is nil
+    (filtering_filters.py:43, after the fixes of the KeyError and the IndexError). *)
 Definition compact_item_key (key obj : fval) : res bool :=
   do g <- getitem_raw obj key;;
   match g with
   | GVal v => Ok (negb (is_nil v))
   | GKeyErr => Ok false
-  | GIndexErr => PyExc IndexError
+  | GIndexErr => Ok false
   | GTypeErr _ => LErr LiquidTypeError None
   end.
 
@@ -531,6 +533,19 @@ Definition split_f (left sep : fval) : res fval :=
                 | _ => Ok (FList (map FStr (py_split sp val)))
                 end
     end.
+
+(** What [Filter.evaluate] (expressions.py:962, after the fix "ValueError and
+    arithmetic errors raised inside a filter escaped the render") makes of an
+    exception raised by the filter callable: TypeError, ValueError (which
+    includes UnicodeError) and ArithmeticError (ZeroDivisionError,
+    OverflowError, decimal.InvalidOperation) become LiquidTypeError; lookup
+    errors and Liquid errors pass. *)
+Definition as_rendered {A} (r : res A) : res A :=
+  match r with
+  | PyExc (TypeError | ValueError | UnicodeError | OverflowError | ZeroDivisionError
+           | DecimalInvalidOperation) => LErr LiquidTypeError None
+  | _ => r
+  end.
 
 (** * Outcome comparison for the correspondence run *)
 Definition seq_case (model expected : res fval) : bool := rfval_eqb model expected.
